@@ -250,7 +250,7 @@ impl<T: RealNumber + Sum, D: Distance<Vec<T>, T>> DBSCAN<T, D> {
                 }
             }
             let class = which_max(&label);
-            if class != self.num_classes {
+            if class != self.num_classes && label[class] > 0 {
                 result.set(0, i, T::from(class).unwrap());
             } else {
                 result.set(0, i, -T::one());
